@@ -102,6 +102,9 @@ def vjoin(a, b):
         return a
     if isinstance(a, tuple) and isinstance(b, tuple) and a[0] == "int" and b[0] == "int":
         return ("int", lv_join(a[1], b[1]))
+    if isinstance(a, tuple) and isinstance(b, tuple) and a[0] == "abortv" and b[0] == "abortv" and a[2] == b[2]:
+        j = lv_join(a[1], b[1])
+        return ("abortv", j, a[2]) if j not in (None, "TOP") else TOPV
     return TOPV
 
 
@@ -109,6 +112,8 @@ def levels_of(v):
     if isinstance(v, (Seq, Node)):
         return [v.level]
     if isinstance(v, tuple) and v[0] == "int":
+        return [v[1]]
+    if isinstance(v, tuple) and v[0] == "abortv":
         return [v[1]]
     return []
 
@@ -120,6 +125,8 @@ def with_level(v, l):
         return Node(l, v.checked, v.admitted, v.rec)
     if isinstance(v, tuple) and v[0] == "int":
         return ("int", l)
+    if isinstance(v, tuple) and v[0] == "abortv":
+        return ("abortv", l, v[2])
     return v
 
 
@@ -437,6 +444,10 @@ class IterFlow:
                 return (env, facts | {("filter", c.args[0].id, o)})
         if isinstance(c, ast.Name) and isinstance(env.get(c.id), Seq):
             return (env, facts | {("nonempty", c.id, o)})
+        if isinstance(c, ast.Name) and isinstance(env.get(c.id), tuple) and env[c.id][0] == "abortv":
+            _, g, truthy_is_abort = env[c.id]
+            aborted = o if truthy_is_abort else not o
+            return (env, facts | {("abort" if aborted else "noabort", g)})
         return (env, facts)
 
     def admitted_here(self, v, facts):
@@ -549,7 +560,9 @@ class IterFlow:
                 self.problem("S2", f, e, "yield from a value that is not the result of a recursive strategy call")
             return TOPV
         if isinstance(e, ast.UnaryOp):
-            self.ev(f, e.operand, env, facts, rec, cn)
+            v = self.ev(f, e.operand, env, facts, rec, cn)
+            if isinstance(e.op, ast.Not) and isinstance(v, tuple) and v[0] == "abortv":
+                return ("abortv", v[1], not v[2])
             return TOPV
         if isinstance(e, ast.Compare):
             return TOPV
@@ -661,6 +674,10 @@ class IterFlow:
                     return Seq(lvl, summ.checked, adm)
                 return TOPV
             if callee.srcname == "_abort_at_level":
+                if len(args) == 2 and isinstance(args[0], tuple) and args[0][0] == "int" and isinstance(args[1], tuple) and args[1][0] == "max":
+                    g = lv_add(args[0][1], args[1][1])
+                    if g is not None and g != "TOP":
+                        return ("abortv", g, True)  # truthy <=> abort
                 return TOPV
         return TOPV
 
